@@ -106,12 +106,10 @@ Qed.
 Section WithF2S.
 Variable f2s : Z -> str.
 
-Definition no_rnull (data : list rawval) : Prop := Forall (fun v => v <> RNull) data.
-
 Lemma mixed_strings_app a b : mixed_strings f2s (a ++ b) = mixed_strings f2s a ++ mixed_strings f2s b.
 Proof.
   induction a as [|v a IH]; [reflexivity|]. cbn [app mixed_strings].
-  destruct (raw_to_string f2s v); [cbn; now rewrite IH|exact IH].
+  destruct (raw_to_string f2s v); cbn; now rewrite IH.
 Qed.
 
 Lemma mixed_strings_rstr l : mixed_strings f2s (map RStr l) = l.
@@ -123,11 +121,8 @@ Proof. induction l as [|s l IH]; cbn; [reflexivity|now rewrite IH]. Qed.
 Lemma mixed_strings_rfloat l : mixed_strings f2s (map RFloat l) = map f2s l.
 Proof. induction l as [|s l IH]; cbn; [reflexivity|now rewrite IH]. Qed.
 
-Lemma no_rnull_app a b : no_rnull a -> no_rnull b -> no_rnull (a ++ b).
-Proof. apply Forall_app_intro || (intros; apply Forall_app; auto). Qed.
-
-Lemma no_rnull_map {A} (f : A -> rawval) l : (forall a, f a <> RNull) -> no_rnull (map f l).
-Proof. intros H. apply Forall_forall. intros v Hv. apply in_map_iff in Hv as (a & <- & _). apply H. Qed.
+Lemma mixed_strings_rnull n : mixed_strings f2s (repeat RNull n) = repeat [] n.
+Proof. induction n as [|n IH]; cbn; [reflexivity|now rewrite IH]. Qed.
 
 (* ---------------------------------------------------------------------------------------------- *)
 (* the invariant *)
@@ -152,7 +147,7 @@ Definition buf_ok (b : tbuf) : Prop :=
   | TInt data st => st = istats_push_all istats_init data /\ i64s data
   | TFloat _ => True
   | TStr values => short_strings values
-  | TMixed data => no_rnull data /\ short_strings (mixed_strings f2s data)
+  | TMixed data => short_strings (mixed_strings f2s data)
   end.
 
 Record Inv (cb : colbuf) (k : kind) (cs : list cell) : Prop := mk_inv {
@@ -176,7 +171,7 @@ Definition op_ok (k : kind) (op : push_op) : Prop :=
   | PInts xs np => np = None /\ i64s xs
   | PFloats fs np => np = None
   | PStrs ss np => np = None /\ short_strings ss
-  | PNulls n => 0 <= n /\ ~ (k = KMixed /\ 0 < n)        (* F4 *)
+  | PNulls n => 0 <= n          (* until /repo f5be0e2 also: not (k = KMixed /\ 0 < n), finding F4 *)
   end.
 
 Hypothesis f2s_short : forall f, zlen (f2s f) < 16777216.
@@ -326,9 +321,8 @@ Proof.
         [rewrite Eb; discriminate| | |discriminate].
       * rewrite Eb. cbn. rewrite mixed_strings_app, mixed_strings_rstr, mixed_strings_rint.
         rewrite map_app, map_map. reflexivity.
-      * pose proof (inv_ok _ _ _ HI) as Ho. rewrite Eb in Ho. cbn in Ho. cbn. split.
-        -- apply no_rnull_app; apply no_rnull_map; discriminate.
-        -- rewrite mixed_strings_app, mixed_strings_rstr, mixed_strings_rint.
+      * pose proof (inv_ok _ _ _ HI) as Ho. rewrite Eb in Ho. cbn in Ho. cbn.
+        rewrite mixed_strings_app, mixed_strings_rstr, mixed_strings_rint.
            apply short_app; [exact Ho|apply short_map; apply i64_to_string_short].
     + replace (length xs) with (length (map CInt xs)) by apply map_length.
       apply (inv_append_id cb KInt cs (TInt (data ++ xs) (istats_push_all st xs)) _ HI);
@@ -346,9 +340,8 @@ Proof.
         [rewrite Eb; discriminate| | |discriminate].
       * rewrite Eb. cbn. rewrite mixed_strings_app, mixed_strings_rint.
         rewrite map_app, map_map. reflexivity.
-      * pose proof (inv_ok _ _ _ HI) as Ho. rewrite Eb in Ho. cbn in Ho. destruct Ho as [Ho1 Ho2]. cbn. split.
-        -- apply no_rnull_app; [exact Ho1|apply no_rnull_map; discriminate].
-        -- rewrite mixed_strings_app, mixed_strings_rint.
+      * pose proof (inv_ok _ _ _ HI) as Ho. rewrite Eb in Ho. cbn in Ho. rename Ho into Ho2. cbn.
+        rewrite mixed_strings_app, mixed_strings_rint.
            apply short_app; [exact Ho2|apply short_map; apply i64_to_string_short].
   - (* push_floats *)
     subst np. cbn [push spec_push mask_new]. unfold push_floats.
@@ -365,9 +358,8 @@ Proof.
         [rewrite Eb; discriminate| | |discriminate].
       * rewrite Eb. cbn. rewrite mixed_strings_app, mixed_strings_rstr, mixed_strings_rfloat.
         rewrite map_app, map_map. reflexivity.
-      * pose proof (inv_ok _ _ _ HI) as Ho. rewrite Eb in Ho. cbn in Ho. cbn. split.
-        -- apply no_rnull_app; apply no_rnull_map; discriminate.
-        -- rewrite mixed_strings_app, mixed_strings_rstr, mixed_strings_rfloat.
+      * pose proof (inv_ok _ _ _ HI) as Ho. rewrite Eb in Ho. cbn in Ho. cbn.
+        rewrite mixed_strings_app, mixed_strings_rstr, mixed_strings_rfloat.
            apply short_app; [exact Ho|apply short_map; apply f2s_short].
     + replace (length fs) with (length (map CFloat fs)) by apply map_length.
       apply (inv_append cb KInt cs (TFloat (map i64_to_f64 data ++ fs)) _ int_to_float_cell HI);
@@ -382,9 +374,8 @@ Proof.
         [rewrite Eb; discriminate| | |discriminate].
       * rewrite Eb. cbn. rewrite mixed_strings_app, mixed_strings_rfloat.
         rewrite map_app, map_map. reflexivity.
-      * pose proof (inv_ok _ _ _ HI) as Ho. rewrite Eb in Ho. cbn in Ho. destruct Ho as [Ho1 Ho2]. cbn. split.
-        -- apply no_rnull_app; [exact Ho1|apply no_rnull_map; discriminate].
-        -- rewrite mixed_strings_app, mixed_strings_rfloat.
+      * pose proof (inv_ok _ _ _ HI) as Ho. rewrite Eb in Ho. cbn in Ho. rename Ho into Ho2. cbn.
+        rewrite mixed_strings_app, mixed_strings_rfloat.
            apply short_app; [exact Ho2|apply short_map; apply f2s_short].
   - (* push_strings *)
     destruct Hop as [-> Hss]. cbn [push spec_push mask_new]. unfold push_strings.
@@ -410,9 +401,8 @@ Proof.
         replace (map (fun i => RStr (i64_to_string i)) data) with (map RStr (map i64_to_string data))
           by (now rewrite map_map).
         rewrite mixed_strings_rstr. rewrite map_app, !map_map. reflexivity.
-      * cbn. split.
-        -- apply no_rnull_app; apply no_rnull_map; discriminate.
-        -- rewrite mixed_strings_app, mixed_strings_rstr.
+      * cbn.
+        rewrite mixed_strings_app, mixed_strings_rstr.
            replace (map (fun i => RStr (i64_to_string i)) data) with (map RStr (map i64_to_string data))
              by (now rewrite map_map).
            rewrite mixed_strings_rstr.
@@ -424,9 +414,8 @@ Proof.
       * rewrite Eb. cbn. rewrite mixed_strings_app, mixed_strings_rstr.
         replace (map (fun f => RStr (f2s f)) data) with (map RStr (map f2s data)) by (now rewrite map_map).
         rewrite mixed_strings_rstr. rewrite map_app, !map_map. reflexivity.
-      * cbn. split.
-        -- apply no_rnull_app; apply no_rnull_map; discriminate.
-        -- rewrite mixed_strings_app, mixed_strings_rstr.
+      * cbn.
+        rewrite mixed_strings_app, mixed_strings_rstr.
            replace (map (fun f => RStr (f2s f)) data) with (map RStr (map f2s data)) by (now rewrite map_map).
            rewrite mixed_strings_rstr.
            apply short_app; [apply short_map; apply f2s_short|exact Hss].
@@ -435,11 +424,10 @@ Proof.
         [rewrite Eb; discriminate|reflexivity| | |discriminate].
       * rewrite Eb. cbn. rewrite mixed_strings_app, mixed_strings_rstr.
         rewrite map_app, map_map. reflexivity.
-      * pose proof (inv_ok _ _ _ HI) as Ho. rewrite Eb in Ho. cbn in Ho. destruct Ho as [Ho1 Ho2]. cbn. split.
-        -- apply no_rnull_app; [exact Ho1|apply no_rnull_map; discriminate].
-        -- rewrite mixed_strings_app, mixed_strings_rstr. now apply short_app.
+      * pose proof (inv_ok _ _ _ HI) as Ho. rewrite Eb in Ho. cbn in Ho. rename Ho into Ho2. cbn.
+        rewrite mixed_strings_app, mixed_strings_rstr. now apply short_app.
   - (* push_nulls *)
-    destruct Hop as [Hn HF4]. cbn [push spec_push]. unfold push_nulls.
+    rename Hop into Hn. cbn [push spec_push]. unfold push_nulls.
     destruct HI as [Il Ik Iw Io Ic].
     destruct (cb_buf cb) as [|values|data st|data|data] eqn:Eb; cbn in Ik; subst k.
     + destruct Ic as [Ip Ic]. constructor; cbn [cb_buf cb_len cb_present].
@@ -483,19 +471,21 @@ Proof.
       * exact I.
       * split; [rewrite zlen_map, zlen_app, zlen_repeat; rewrite zlen_map in Ic1; lia|].
         rewrite map_app. rewrite Ic2 at 1. symmetry. exact V1.
-    + (* Mixed: only push_nulls(0) is in the domain *)
-      assert (n = 0) by (destruct (Z.eq_dec n 0); [assumption|exfalso; apply HF4; split; [reflexivity|lia]]).
-      subst n. cbn [Z.to_nat repeat]. rewrite !app_nil_r.
-      destruct Ic as [Ic1 Ic2].
-      destruct (cb_present cb) as [p|] eqn:Ep.
-      * constructor; cbn [cb_buf cb_len cb_present raw_cells kind_of]; try rewrite Z.add_0_r; auto.
-      * (* the bitmap is materialised although nothing is NULL *)
-        destruct (view_push_nulls (raw_cells (TMixed data)) [] None (cb_len cb) H0 Ic1 I) as [V1 V2].
-        cbn zeta in V1, V2. rewrite app_nil_r in V1. cbn [length repeat] in V1. rewrite app_nil_r in V1.
-        change (zlen (@nil cell)) with 0 in V2.
-        constructor; cbn [cb_buf cb_len cb_present raw_cells kind_of]; try rewrite Z.add_0_r; auto.
-        -- now rewrite Z.add_0_r in V2.
-        -- split; [exact Ic1|]. cbn [raw_cells] in V1. rewrite V1. exact Ic2.
+    + (* Mixed (until /repo f5be0e2 only push_nulls(0) was in the domain: finding F4) *)
+      destruct Ic as [Ic1 Ic2]. cbn [raw_cells] in Ic1, Ic2.
+      destruct (view_push_nulls (map CStr (mixed_strings f2s data)) (map CStr (repeat [] (Z.to_nat n)))
+                                (cb_present cb) (cb_len cb) H0 Ic1 Iw) as [V1 V2].
+      cbn zeta in V1, V2. rewrite map_length, repeat_length in V1.
+      rewrite zlen_map, zlen_repeat, Z2Nat.id in V2 by lia.
+      constructor; cbn [cb_buf cb_len cb_present raw_cells kind_of].
+      * rewrite zlen_app, zlen_repeat, Il. lia.
+      * reflexivity.
+      * exact V2.
+      * cbn. cbn in Io. rewrite mixed_strings_app, mixed_strings_rnull.
+        apply short_app; [exact Io|apply short_repeat_nil].
+      * rewrite mixed_strings_app, mixed_strings_rnull.
+        split; [rewrite zlen_map, zlen_app, zlen_repeat; rewrite zlen_map in Ic1; lia|].
+        rewrite map_app. rewrite Ic2 at 1. symmetry. exact V1.
 Qed.
 
 End WithF2S.
